@@ -87,7 +87,7 @@ def render(inst, idx, dirs, reverse_order, cxx):
         if inst['needm'][i - 1] == 2:
             body = '#include <math.h>\n' + body
             extra = ' + (int)pow((double)vol, 2.0)'      # == 4, needs -lm at the final link
-        elif inst['needm'][i - 1] == 1:
+        elif inst['needm'][i - 1] in (1, 3):
             # needs a link OPTION wherever this object is linked: calls to X only resolve
             # (to __wrap_X) under -Wl,--wrap=X
             ec = 'extern "C" ' if cxxlib else ''
@@ -107,7 +107,9 @@ def render(inst, idx, dirs, reverse_order, cxx):
         libs = ', libs=[%s]' % ', '.join(libvar(j) for j in dl) if dl else ''
         kind = inst['kinds'][i - 1]
         lo = {0: '', 1: ", link_options=['-Wl,--wrap=%s_w%d']" % (pre, i),
-              2: ", link_options=[opts.lib('m')]"}[inst['needm'][i - 1]]
+              2: ", link_options=[opts.lib('m')]",
+              # the same requirement spelt as an option word with a separate argument
+              3: ", link_options=['-Xlinker', '--wrap=%s_w%d']" % (pre, i)}[inst['needm'][i - 1]]
         if kind == 'static':
             lines.append("%s = static_library(%r, [%r]%s%s)" % (libvar(i), name, src, libs, lo))
         elif kind == 'shared':
@@ -243,6 +245,11 @@ def run(ctx):
             for dirs in dirsets:
                 for rev in ((False, True) if len(inst['exedeps']) > 1 or len(inst['edges']) > 1 else (False,)):
                     cases.append((inst, dirs, rev))
+    # two static libraries on one link, EACH with a two-word requirement (the option word repeats)
+    for edges in ([], [(1, 2)]):
+        for rev in (False, True):
+            cases.append((dict(n=2, kinds=('static', 'static'), edges=edges, exedeps=[1, 2], needm=(3, 3)),
+                          DIRSETS[2][1], rev))
     if not th:
         # quick: of the three-library DAGs only the chains (1 -> 2 -> 3, with and without the shortcut
         # 1 -> 3) over static / shared libraries, every listing of the executable's libs in both orders
